@@ -3,13 +3,21 @@ package main
 import (
 	"bufio"
 	"bytes"
+	"crypto/ecdsa"
+	"crypto/elliptic"
+	"crypto/rand"
+	"crypto/tls"
+	"crypto/x509"
+	"crypto/x509/pkix"
 	"errors"
 	"fmt"
 	"io"
+	"math/big"
 	"net"
 	"os"
 	"os/exec"
 	"runtime/debug"
+	"strings"
 	"sync"
 	"sync/atomic"
 	"time"
@@ -492,6 +500,7 @@ func execDialPlan(o *out, f [][]int) []int {
 }
 
 func runC17(o *out, thorough bool, r *rng, _ []string) map[string]interface{} {
+	tlsServerNameScenarios(o)
 	n := 4000
 	if thorough {
 		n = 60000
@@ -615,5 +624,110 @@ func dialParsed(o *out) {
 			o.failFor("C17", "tls-server-name-missing", "1701 "+fHex([]byte(s)))
 		}
 		o.count("dial-parsed")
+	}
+}
+
+// ---- TLS: the host is the server name the certificate is verified against ----
+
+// pipeNet: Dial returns one end of a net.Pipe; the other end is handed to the server goroutine
+type pipeNet struct {
+	transport.Net
+	server chan net.Conn
+	dialed []string
+}
+
+func (p *pipeNet) Dial(network, address string) (net.Conn, error) {
+	p.dialed = append(p.dialed, network+" "+address)
+	a, b := net.Pipe()
+	p.server <- b
+	return a, nil
+}
+
+// certFor: a self-signed certificate valid for exactly this host (IP or DNS name)
+func certFor(host string) (tls.Certificate, *x509.CertPool, error) {
+	key, err := ecdsa.GenerateKey(elliptic.P256(), rand.Reader)
+	if err != nil {
+		return tls.Certificate{}, nil, err
+	}
+	tpl := &x509.Certificate{SerialNumber: big.NewInt(1), Subject: pkix.Name{CommonName: "verif"},
+		NotBefore: time.Now().Add(-time.Hour), NotAfter: time.Now().Add(24 * time.Hour),
+		KeyUsage: x509.KeyUsageDigitalSignature | x509.KeyUsageCertSign, ExtKeyUsage: []x509.ExtKeyUsage{x509.ExtKeyUsageServerAuth},
+		BasicConstraintsValid: true, IsCA: true}
+	if ip := net.ParseIP(host); ip != nil {
+		tpl.IPAddresses = []net.IP{ip}
+	} else {
+		tpl.DNSNames = []string{host}
+	}
+	der, err := x509.CreateCertificate(rand.Reader, tpl, tpl, &key.PublicKey, key)
+	if err != nil {
+		return tls.Certificate{}, nil, err
+	}
+	leaf, err := x509.ParseCertificate(der)
+	if err != nil {
+		return tls.Certificate{}, nil, err
+	}
+	pool := x509.NewCertPool()
+	pool.AddCert(leaf)
+	return tls.Certificate{Certificate: [][]byte{der}, PrivateKey: key, Leaf: leaf}, pool, nil
+}
+
+// tlsServerNameScenarios (oracle in Go): for secure schemes over TCP, DialURI verifies the server against
+// the URI's host — DNS names and IP literals alike: a server whose certificate is valid for exactly that
+// host completes the handshake, a server with a certificate for another host does not.
+func tlsServerNameScenarios(o *out) {
+	for _, host := range []string{"192.0.2.7", "2001:db8::7", "turn.example.org", "127.0.0.1"} {
+		for _, raw := range []string{"stuns:%s:5349", "turns:%s:443?transport=tcp"} {
+			for _, right := range []bool{true, false} {
+				h := host
+				if strings.Contains(h, ":") {
+					h = "[" + h + "]"
+				}
+				uri := fmt.Sprintf(raw, h)
+				u, err := stun.ParseURI(uri)
+				if err != nil {
+					o.failFor("C17", "valid-uri-rejected", "x "+uri)
+					continue
+				}
+				certHost := host
+				if !right {
+					certHost = map[bool]string{true: "198.51.100.9", false: "other.example.net"}[net.ParseIP(host) != nil]
+				}
+				cert, pool, err := certFor(certHost)
+				if err != nil {
+					continue
+				}
+				pn := &pipeNet{server: make(chan net.Conn, 1)}
+				result := make(chan error, 1)
+				go func() {
+					select {
+					case c := <-pn.server:
+						srv := tls.Server(c, &tls.Config{Certificates: []tls.Certificate{cert}, MinVersion: tls.VersionTLS12})
+						_ = c.SetDeadline(time.Now().Add(3 * time.Second))
+						result <- srv.Handshake()
+						_ = c.Close()
+					case <-time.After(3 * time.Second):
+						result <- errors.New("never dialed")
+					}
+				}()
+				c, derr := stun.DialURI(u, &stun.DialConfig{Net: pn, TLSConfig: tls.Config{RootCAs: pool, MinVersion: tls.VersionTLS12}})
+				var herr error
+				select {
+				case herr = <-result:
+				case <-time.After(4 * time.Second):
+					herr = errors.New("timeout")
+				}
+				if c != nil {
+					_ = c.Close()
+				}
+				detail := fmt.Sprintf("x %s certificate-for=%s dial-error=%v handshake=%v", uri, certHost, derr, herr)
+				if right && (derr != nil || herr != nil) {
+					o.failFor("C17", "tls-server-name-not-the-host", detail)
+				}
+				if !right && herr == nil {
+					o.failFor("C17", "tls-accepts-certificate-for-another-host", detail)
+				}
+				o.count("tls-handshake-scenarios")
+			}
+		}
 	}
 }
